@@ -143,7 +143,9 @@ def _dress(rng, o, pardim, order, refine, repeat_knot, rational, right_handed, b
         # knot vectors that are not symmetric under reversal (the same in every patch along a lattice axis, so the complex
         # stays conforming): a reversed interface direction is then distinguishable from an unreversed one
         for d_ in range(pardim):
-            o.insert_knot([0.3, 0.35, 0.6][d_], d_)
+            x_ = [0.3137, 0.3519, 0.6073][d_]
+            if not any(abs(k_ - x_) < 1e-6 for k_ in o.knots(d_)):
+                o.insert_knot(x_, d_)
     if rational == 'mixed':
         rational = rng.random() < 0.5       # per patch: rational and polynomial patches share vertices, edges and faces
     if rational:
@@ -186,7 +188,9 @@ def build(rng, pardim, dim=None, order=2, refine=0, rational=False, right_handed
                     o.insert_knot([0.5] * (2 - have), d_)
         if asym:
             for d_ in range(pardim):
-                o.insert_knot([0.3, 0.35, 0.6][d_], d_)
+                x_ = [0.3137, 0.3519, 0.6073][d_]
+                if not any(abs(k_ - x_) < 1e-6 for k_ in o.knots(d_)):
+                    o.insert_knot(x_, d_)
         if (rng.random() < 0.5) if rational == 'mixed' else rational:
             o.force_rational()
         ors = orientations(pardim)
